@@ -5,7 +5,7 @@ HOOKS = {
     'source_commits': ['6984f07'],
     'add_only': True,
 }
-NOTES = 'Exit codes of ./check: 0 all obligations discharged; 1 VIOLATION (definite verifier refutation not recorded as a known finding); 2 undecided (lost anchor, changed signature, unsupported construct, rlimit, tool crash) - never an alarm. See DESIGN.md.'
+NOTES = 'Exit codes of ./check: 0 all obligations discharged; 1 VIOLATION (a refuted postcondition of a unit, a failing Kani harness, a native disagreement with the spec function, or a refuted obligation inside a body together with a concrete failing input - and not recorded as a known finding); 2 undecided (lost anchor, changed signature, unsupported construct, rlimit, tool crash, or an obligation inside a body that no longer verifies while no failing input is found) - never an alarm. See DESIGN.md.'
 
 PENDING = 'check not built yet in this session (planned in DESIGN.md section 5)'
 NOT_APPLICABLE = {
